@@ -20,14 +20,28 @@ Inductive assumption :=
 | CallAfterWrite (callee field : string)
     (* there is a call fact of callee, and at every one "T.f" has been written earlier on
        every path of the calling function (or its callers) *)
+| CallAfterCall (callee other : string)
+    (* ... and at every one the call [other] has been executed earlier on every path *)
+| CallNotAfter (callee other : string)
+    (* ... and at none of them the call [other] can have been executed earlier in the same
+       function body *)
 | CallInGo (callee : string) (b : bool)
     (* there is a call fact of callee, and every one is (b = true) / is not (b = false)
        inside the operand of a go statement *)
 | CallFree (callee lock : string)
     (* there is a call fact of callee, and none is made with lock held (in any mode): a
        blocking operation that the model performs as a step of its own, outside the section *)
-| FieldHolds (ty fd lock : string).
+| CalleesWithPrefix (prefix : string) (allowed : list string)
+    (* there is a call fact whose callee starts with prefix, and every such callee is allowed
+       (e.g. every make(async, n) has n = 1) *)
+| InCaller (caller : string) (a : assumption)
+    (* a, restricted to the call facts whose caller is [caller] *)
+| FieldHolds (ty fd lock : string)
     (* there is a non-fresh access fact of ty.fd, and every one holds lock exclusively *)
+| FieldHoldsExcept (ty fd lock : string) (funcs : list string)
+    (* ... except the accesses made in these functions (each argued where it is used) *)
+| FieldAtomic (ty fd : string).
+    (* there is a non-fresh access fact of ty.fd, and every one is a sync/atomic operation *)
 
 Definition chow_eqb (a b : chow) : bool :=
   match a, b with HCall, HCall | HGo, HGo | HDefer, HDefer | HValue, HValue => true | _, _ => false end.
@@ -37,7 +51,7 @@ Definition facts_of (callee : string) (calls : list call_fact) : list call_fact 
 
 Definition nonempty {A} (l : list A) : bool := match l with [] => false | _ => true end.
 
-Definition call_violates (a : assumption) (c : call_fact) : bool :=
+Fixpoint call_violates (a : assumption) (c : call_fact) {struct a} : bool :=
   match a with
   | CallHolds callee l => String.eqb (k_callee c) callee && negb (has_lock l MW (k_locks c))
   | UsesWithin callee uses =>
@@ -46,28 +60,37 @@ Definition call_violates (a : assumption) (c : call_fact) : bool :=
   | UsedExactlyOnce callee how caller =>
       String.eqb (k_callee c) callee && negb (chow_eqb how (k_how c) && String.eqb caller (k_caller c))
   | CallAfterWrite callee f => String.eqb (k_callee c) callee && negb (str_in f (k_written c))
+  | CallAfterCall callee o => String.eqb (k_callee c) callee && negb (str_in o (k_after c))
+  | CallNotAfter callee o => String.eqb (k_callee c) callee && str_in o (k_maybe c)
   | CallInGo callee b => String.eqb (k_callee c) callee && negb (Bool.eqb b (k_in_go c))
   | CallFree callee l =>
       String.eqb (k_callee c) callee && (has_lock l MW (k_locks c) || has_lock l MR (k_locks c))
-  | FieldHolds _ _ _ => false
+  | CalleesWithPrefix p allowed => String.prefix p (k_callee c) && negb (str_in (k_callee c) allowed)
+  | InCaller caller a' => String.eqb (k_caller c) caller && call_violates a' c
+  | FieldHolds _ _ _ | FieldHoldsExcept _ _ _ _ | FieldAtomic _ _ => false
   end.
+
+Definition is_field (ty fd : string) (f : access_fact) : bool :=
+  String.eqb (a_type f) ty && String.eqb (a_field f) fd && negb (a_fresh f).
 
 Definition access_violates (a : assumption) (f : access_fact) : bool :=
   match a with
-  | FieldHolds ty fd l =>
-      String.eqb (a_type f) ty && String.eqb (a_field f) fd && negb (a_fresh f)
-      && negb (has_lock l MW (a_locks f))
+  | FieldHolds ty fd l => is_field ty fd f && negb (has_lock l MW (a_locks f))
+  | FieldHoldsExcept ty fd l funcs =>
+      is_field ty fd f && negb (str_in (a_func f) funcs) && negb (has_lock l MW (a_locks f))
+  | FieldAtomic ty fd => is_field ty fd f && match a_kind f with KAtomic => false | _ => true end
   | _ => false
   end.
 
-Definition subject_present (a : assumption) (calls : list call_fact) (accs : list access_fact) : bool :=
+Fixpoint subject_present (a : assumption) (calls : list call_fact) (accs : list access_fact) {struct a} : bool :=
   match a with
   | CallHolds callee _ | UsesWithin callee _ | CallAfterWrite callee _ | CallInGo callee _
-  | CallFree callee _ =>
+  | CallFree callee _ | CallAfterCall callee _ | CallNotAfter callee _ =>
       nonempty (facts_of callee calls)
   | UsedExactlyOnce callee _ _ => Nat.eqb (List.length (facts_of callee calls)) 1
-  | FieldHolds ty fd _ =>
-      existsb (fun f => String.eqb (a_type f) ty && String.eqb (a_field f) fd && negb (a_fresh f)) accs
+  | CalleesWithPrefix p _ => existsb (fun c => String.prefix p (k_callee c)) calls
+  | InCaller caller a' => subject_present a' (filter (fun c => String.eqb (k_caller c) caller) calls) accs
+  | FieldHolds ty fd _ | FieldHoldsExcept ty fd _ _ | FieldAtomic ty fd => existsb (is_field ty fd) accs
   end.
 
 Definition assumption_ok (calls : list call_fact) (accs : list access_fact) (a : assumption) : bool :=
@@ -194,3 +217,223 @@ Definition consumergroup_assumptions : list assumption := [
 
 Definition consumergroup_assumptions_hold (calls : list call_fact) (accs : list access_fact) : bool :=
   calls_ok calls accs consumergroup_assumptions.
+
+(* -------------------------- Reader (Model/Lifecycle.v, Model/GroupReader.v, Model/ReaderModel.v)
+   Label / step                 Go code (reader.go)                              assumption
+   LFLock, LFetchSnap           FetchMessage loop head: ONE section of r.mutex:    R1-R3, R5
+                                closed? version==0 -> start; snapshot version
+   LFRecv, LFetchRecv           <-r.msgs outside the mutex, then ONE section:      R3, R9
+                                offset/lag update when version unchanged
+   LFEof                        r.msgs closed and drained                          R10
+   LFRunErr                     <-r.runError (sent by run without blocking)        R15
+   LSetOffset                   SetOffset: ONE section of r.mutex: offset, start   R3, R5
+   start (inside the mutex)     r.cancel(); r.cancel = ..; r.version++;            R4-R7
+                                r.join.Add(n); go func per partition -> reader.run
+   LFPush / LFPushErr,          reader.sendMessage / sendError are the only        R8
+   LReaderEmit                  senders on r.msgs (select with ctx.Done)
+   LCCheck, LCEnq, LCommitCall  CommitMessages: non-blocking stctx check BEFORE    R14
+                                the enqueue select; errch buffered (cap 1)
+   LLoopRecv, LClTake           commit loops are the only receivers of r.commits   R14
+   LCloseStep: CLMark           Close: ONE section of r.mutex: read+set closed     R1
+     CLCancel, CLStop, CLJoin   then r.cancel(), r.stop(), r.join.Wait() in this   R4, R12
+                                order, outside the mutex
+     CLDone, CLMsgs             <-r.done (group), then close(r.msgs): the only     R10, R11
+                                close of r.msgs, after join.Wait and <-r.done
+   LRSub, LSubscribe            Reader.run (one goroutine, started by NewReader):  R13, R16
+                                subscribe -> start under r.mutex
+   LRStartC, LRStartU           gen.Start(commitLoop), gen.Start(unsubscribe       R16, R18
+                                waiter) by Reader.run only
+   LUnCancel, LUnJoin,          unsubscribe: section of r.mutex reading r.cancel,  R4, R16, R17
+   LUnsubscribe                 cancel, THEN r.join.Wait() outside the mutex
+   LRDone                       deferred close(r.done): once, by Reader.run        R13 *)
+Definition reader_assumptions : list assumption := [
+  (* R1  *) FieldHolds "Reader" "closed" "Reader.mutex";
+  (* R2  *) FieldHolds "Reader" "version" "Reader.mutex";
+  (* R3  *) FieldHolds "Reader" "offset" "Reader.mutex";
+            FieldHolds "Reader" "lag" "Reader.mutex";
+  (* R4  *) FieldHoldsExcept "Reader" "cancel" "Reader.mutex" ["Reader.Close"];
+            (* Close calls r.cancel() after its section set closed; start, the only writer, is a no-op once closed *)
+            UsesWithin "Reader.cancel()" [(HCall, "Reader.start"); (HCall, "Reader.Close")];
+            (* unsubscribe copies r.cancel inside its section of r.mutex and calls the copy after it *)
+  (* R5  *) CallHolds "Reader.start" "Reader.mutex";
+            UsesWithin "Reader.start" [(HCall, "Reader.FetchMessage"); (HCall, "Reader.SetOffset"); (HCall, "Reader.subscribe")];
+  (* R6  *) UsedExactlyOnce "go:Reader.start$1" HGo "Reader.start";
+            CallHolds "go:Reader.start$1" "Reader.mutex";
+            CallAfterCall "go:Reader.start$1" "Reader.join.Add";
+            CallAfterWrite "go:Reader.start$1" "Reader.version";
+            UsedExactlyOnce "Reader.join.Add" HCall "Reader.start";
+            CallHolds "Reader.join.Add" "Reader.mutex";
+  (* R7  *) UsedExactlyOnce "reader.run" HCall "Reader.start$1";
+            CallInGo "reader.run" true;
+  (* R8  *) UsesWithin "send(reader.msgs)" [(HCall, "reader.sendMessage"); (HCall, "reader.sendError")];
+            UsesWithin "reader.sendMessage" [(HCall, "reader.read")];
+            UsesWithin "reader.sendError" [(HCall, "reader.run")];
+            UsedExactlyOnce "reader.read" HCall "reader.run";
+  (* R9  *) UsedExactlyOnce "recv(Reader.msgs)" HCall "Reader.FetchMessage";
+            CallFree "recv(Reader.msgs)" "Reader.mutex";
+  (* R10 *) UsedExactlyOnce "close(Reader.msgs)" HCall "Reader.Close";
+            CallAfterCall "close(Reader.msgs)" "Reader.join.Wait";
+            CallAfterCall "close(Reader.msgs)" "Reader.stop()";
+            CallAfterCall "close(Reader.msgs)" "Reader.cancel()";
+            CallAfterWrite "close(Reader.msgs)" "Reader.closed";
+            CallFree "close(Reader.msgs)" "Reader.mutex";
+  (* R11 *) UsedExactlyOnce "recv(Reader.done)" HCall "Reader.Close";
+            CallAfterCall "recv(Reader.done)" "Reader.join.Wait";
+            CallNotAfter "recv(Reader.done)" "close(Reader.msgs)";
+  (* R12 *) UsedExactlyOnce "Reader.stop()" HCall "Reader.Close";
+            CallAfterCall "Reader.stop()" "Reader.cancel()";
+            CallAfterWrite "Reader.stop()" "Reader.closed";
+            InCaller "Reader.Close" (CallAfterCall "Reader.join.Wait" "Reader.stop()");
+            InCaller "Reader.Close" (CallAfterCall "Reader.cancel()" "unlock(Reader.mutex)");
+            UsesWithin "Reader.join.Wait" [(HCall, "Reader.Close"); (HCall, "Reader.unsubscribe")];
+  (* R13 *) UsedExactlyOnce "Reader.run" HGo "NewReader";
+            UsedExactlyOnce "close(Reader.done)" HDefer "Reader.run";
+  (* R14 *) UsedExactlyOnce "send(Reader.commits)" HCall "Reader.CommitMessages";
+            CallAfterCall "send(Reader.commits)" "Reader.stctx.Done";
+            UsesWithin "recv(Reader.commits)" [(HCall, "Reader.commitLoopImmediate"); (HCall, "Reader.commitLoopInterval")];
+            InCaller "Reader.CommitMessages" (CalleesWithPrefix "makechan(" ["makechan(chan error,1)"]);
+  (* R15 *) UsedExactlyOnce "send(Reader.runError)" HCall "Reader.run";
+            UsedExactlyOnce "recv(Reader.runError)" HCall "Reader.FetchMessage";
+  (* R16 *) UsedExactlyOnce "Reader.subscribe" HCall "Reader.run";
+            UsedExactlyOnce "Reader.unsubscribe" HCall "Reader.run$4";
+            CallInGo "Reader.unsubscribe" true;
+            CallAfterCall "Reader.unsubscribe" "Reader.stctx.Done";
+            InCaller "Reader.run" (UsesWithin "Generation.Start" [(HCall, "Reader.run")]);
+  (* R17 *) CallFree "Reader.join.Wait" "Reader.mutex";
+            InCaller "Reader.unsubscribe" (CallAfterCall "Reader.join.Wait" "unlock(Reader.mutex)");
+  (* R18 *) UsedExactlyOnce "Reader.commitLoop" HCall "Reader.run$3";
+            CallInGo "Reader.commitLoop" true;
+            UsesWithin "Reader.commitOffsetsWithRetry"
+              [(HCall, "Reader.commitLoopImmediate"); (HCall, "Reader.commitLoopInterval$1")]
+].
+
+Definition reader_assumptions_hold (calls : list call_fact) (accs : list access_fact) : bool :=
+  calls_ok calls accs reader_assumptions.
+
+(* ---------------------------------------------- Conn (Model/ConnMux.v, Model/ConnOps.v conn_do)
+   Label            Go code (conn.go, batch.go)                                   assumption
+   Enter            doRequest: c.enter() (atomic inflight++) before wlock          K1
+   LockW            c.wlock.Lock(), only in doRequest, never while holding rlock   K2
+   Send             ONE section of wlock: correlationID++, write callback,         K2, K3, K10
+                    deadline set/unset, [error: conn.Close, leave], Unlock
+   LockR            c.rlock.Lock(), only in waitResponse, after the request was    K5
+                    written, never while holding wlock
+   PeekOwn/Other/   peek / skip / concurrency() under rlock; rlock released in     K6, K7
+   Fail             waitResponse only on the not-mine / error paths; leave()
+   ReadDone         Conn.do: read callback, [non-Kafka error: conn.Close], then    K7, K8, K11
+                    the ONLY release of the handed-over rlock besides Batch.close
+   BatchOpen/Close  ReadBatchWith keeps rlock in the Batch; Batch.close (under     K7, K9, K12
+                    batch.mutex) stores conn.offset under conn.mutex and unlocks *)
+Definition conn_assumptions : list assumption := [
+  (* K1  *) FieldAtomic "Conn" "inflight";
+            UsedExactlyOnce "Conn.enter" HCall "Conn.doRequest";
+            CallFree "Conn.enter" "Conn.wlock";
+            CallAfterCall "lock(Conn.wlock)" "Conn.enter";
+            UsesWithin "Conn.leave" [(HCall, "Conn.doRequest"); (HCall, "Conn.waitResponse")];
+            InCaller "Conn.doRequest" (CallHolds "Conn.leave" "Conn.wlock");
+  (* K2  *) UsedExactlyOnce "lock(Conn.wlock)" HCall "Conn.doRequest";
+            UsedExactlyOnce "unlock(Conn.wlock)" HCall "Conn.doRequest";
+            CallFree "lock(Conn.wlock)" "Conn.rlock";
+  (* K3  *) FieldHolds "Conn" "correlationID" "Conn.wlock";
+            FieldHolds "Conn" "wbuf" "Conn.wlock";
+            FieldHoldsExcept "Conn" "wb" "Conn.wlock" ["Conn.saslAuthenticate"];  (* raw SASL v0 exchange, during dial only *)
+  (* K5  *) UsedExactlyOnce "lock(Conn.rlock)" HCall "Conn.waitResponse";
+            CallFree "lock(Conn.rlock)" "Conn.wlock";
+            CallAfterCall "lock(Conn.rlock)" "Conn.doRequest";
+  (* K6  *) UsedExactlyOnce "Conn.peekResponseSizeAndID" HCall "Conn.waitResponse";
+            CallHolds "Conn.peekResponseSizeAndID" "Conn.rlock";
+            UsedExactlyOnce "Conn.skipResponseSizeAndID" HCall "Conn.waitResponse";
+            CallHolds "Conn.skipResponseSizeAndID" "Conn.rlock";
+            CallAfterCall "Conn.skipResponseSizeAndID" "Conn.peekResponseSizeAndID";
+            UsedExactlyOnce "Conn.concurrency" HCall "Conn.waitResponse";
+            CallHolds "Conn.concurrency" "Conn.rlock";
+  (* K7  *) UsesWithin "unlock(Conn.rlock)" [(HCall, "Conn.waitResponse")];
+            CallHolds "unlock(Conn.rlock)" "Conn.rlock";
+            UsesWithin "unlock(?lock)" [(HCall, "Conn.do"); (HCall, "Batch.close")];
+            InCaller "Conn.do" (UsedExactlyOnce "unlock(?lock)" HCall "Conn.do");
+            InCaller "Conn.do" (CallAfterCall "unlock(?lock)" "Conn.waitResponse");
+            InCaller "Batch.close" (UsedExactlyOnce "unlock(?lock)" HCall "Batch.close");
+  (* K8  *) UsesWithin "Conn.waitResponse" [(HCall, "Conn.do"); (HCall, "Conn.ReadBatchWith")];
+            CallAfterCall "Conn.waitResponse" "Conn.doRequest";
+            CallFree "Conn.waitResponse" "Conn.wlock";
+            CallFree "Conn.waitResponse" "Conn.rlock";
+            UsesWithin "Conn.doRequest" [(HCall, "Conn.do"); (HCall, "Conn.ReadBatchWith")];
+            CallFree "Conn.doRequest" "Conn.rlock";
+            UsesWithin "Conn.do" [(HCall, "Conn.readOperation"); (HCall, "Conn.writeOperation"); (HCall, "Conn.ApiVersions")];
+  (* K9  *) UsedExactlyOnce "Batch.close" HCall "Batch.Close";
+            CallHolds "Batch.close" "Batch.mutex";
+            FieldHolds "Batch" "lock" "Batch.mutex";
+            FieldHolds "Batch" "conn" "Batch.mutex";
+  (* K10 *) CallHolds "connDeadline.setConnWriteDeadline" "Conn.wlock";
+            CallHolds "connDeadline.unsetConnWriteDeadline" "Conn.wlock";
+            CallHolds "connDeadline.setConnReadDeadline" "Conn.rlock";
+  (* K11 *) UsesWithin "Conn.conn.Close" [(HCall, "Conn.Close"); (HCall, "Conn.do"); (HCall, "Conn.doRequest");
+                                         (HCall, "Conn.waitResponse")];
+            InCaller "Conn.doRequest" (CallHolds "Conn.conn.Close" "Conn.wlock");
+            InCaller "Conn.waitResponse" (CallHolds "Conn.conn.Close" "Conn.rlock");
+  (* K12 *) FieldHolds "Conn" "offset" "Conn.mutex";
+            CallFree "lock(Conn.mutex)" "Conn.wlock";
+            CallFree "lock(Conn.mutex)" "Conn.rlock"
+].
+
+Definition conn_assumptions_hold (calls : list call_fact) (accs : list access_fact) : bool :=
+  calls_ok calls accs conn_assumptions.
+
+(* ------------------------------------------------------ Transport (Model/TransportPool.v)
+   Label                  Go code (transport.go)                                   assumption
+   grab / release /       grabConn, grabConnTo, releaseConn, removeConn,           T1-T3, T9
+   remove / closeIdle     closeIdleConns: each ONE section of connGroup.mutex
+                          over idleConns / closed / conn.timer
+   connect                connGroup.connect starts conn.run exactly once per       T4, T10
+                          conn, on an UNBUFFERED reqs channel
+   hand-off (rendez-vous) c.reqs <- connRequest by sendRequest / discover only,    T6
+                          with a promise channel of capacity 1 made just before
+   conn.run step          roundTrip, then resolve / reject the promise (only in    T5
+                          conn.run), then releaseConn
+   close                  close(c.reqs) only inside c.once.Do; conn.close called   T7, T8
+                          outside the group mutex
+   await                  async.await outside every pool/group lock                T12 *)
+Definition transport_assumptions : list assumption := [
+  (* T1  *) FieldHolds "connGroup" "idleConns" "connGroup.mutex";
+            FieldHolds "connGroup" "closed" "connGroup.mutex";
+  (* T2  *) FieldHolds "conn" "timer" "connGroup.mutex";
+  (* T3  *) UsesWithin "lock(connGroup.mutex)" [(HCall, "connGroup.closeIdleConns"); (HCall, "connGroup.grabConn");
+              (HCall, "connGroup.grabConnTo"); (HCall, "connGroup.releaseConn"); (HCall, "connGroup.removeConn")];
+            CallFree "lock(connGroup.mutex)" "connGroup.mutex";
+            UsesWithin "connGroup.releaseConn" [(HCall, "conn.run"); (HCall, "connGroup.grabConnOrConnect$1")];
+            CallFree "connGroup.releaseConn" "connGroup.mutex";
+  (* T4  *) UsedExactlyOnce "conn.run" HGo "connGroup.connect";
+            CallAfterCall "conn.run" "makechan(chan connRequest,0)";
+            CalleesWithPrefix "makechan(chan connRequest" ["makechan(chan connRequest,0)"];
+  (* T5  *) UsedExactlyOnce "async.resolve" HCall "conn.run";
+            UsedExactlyOnce "async.reject" HCall "conn.run";
+            CallAfterCall "async.resolve" "conn.roundTrip";
+            CallAfterCall "async.reject" "conn.roundTrip";
+            UsedExactlyOnce "conn.roundTrip" HCall "conn.run";
+            InCaller "conn.run" (CallAfterCall "connGroup.releaseConn" "conn.roundTrip");
+  (* T6  *) CalleesWithPrefix "makechan(async" ["makechan(async,1)"];
+            UsesWithin "send(conn.reqs)" [(HCall, "connPool.sendRequest"); (HCall, "connPool.discover")];
+            CallAfterCall "send(conn.reqs)" "makechan(async,1)";
+            CallFree "send(conn.reqs)" "connGroup.mutex";
+            CallFree "send(conn.reqs)" "connPool.mutex";
+  (* T7  *) UsedExactlyOnce "close(conn.reqs)" HCall "conn.close$1";
+            UsedExactlyOnce "conn.once.Do" HCall "conn.close";
+  (* T8  *) UsesWithin "conn.close" [(HCall, "connGroup.closeIdleConns"); (HCall, "connGroup.grabConnOrConnect$1");
+                                    (HCall, "connGroup.releaseConn$1")];
+            CallFree "conn.close" "connGroup.mutex";
+  (* T9  *) UsedExactlyOnce "connGroup.removeConn" HCall "connGroup.releaseConn$1";
+            CallFree "connGroup.removeConn" "connGroup.mutex";
+  (* T10 *) UsesWithin "connGroup.grabConn" [(HCall, "connGroup.grabConnOrConnect")];
+            UsesWithin "connGroup.grabConnTo" [(HCall, "connGroup.grabConnOrConnect")];
+            UsedExactlyOnce "connGroup.connect" HCall "connGroup.grabConnOrConnect$1";
+            CallInGo "connGroup.connect" true;
+            UsesWithin "connGroup.grabConnOrConnect" [(HCall, "connPool.grabBrokerConn"); (HCall, "connPool.grabClusterConn")];
+            CallFree "connGroup.grabConnOrConnect" "connPool.mutex";
+  (* T11 *) FieldAtomic "connPool" "state";
+  (* T12 *) CallFree "async.await" "connGroup.mutex";
+            CallFree "async.await" "connPool.mutex";
+            CallFree "async.await" "Transport.mutex"
+].
+
+Definition transport_assumptions_hold (calls : list call_fact) (accs : list access_fact) : bool :=
+  calls_ok calls accs transport_assumptions.
